@@ -165,9 +165,13 @@ def check_1d(case, ctx: Ctx):
             for got, base, cut, nm in ((r.underflow, u0, cut_left, "underflow"), (r.overflow, o0, cut_right, "overflow")):
                 if math.isnan(base):
                     require(math.isnan(float(got)), nm, f"{got} want NaN")
+                elif case.get("mixed_magnitude"):
+                    # general float contents: the cut-off sum is rounded, relative to what was cut off (not to the rest)
+                    mass = abs(float(F(base))) + sum(abs(float(F(x))) for x in (freq[: sel[0]] if nm == "underflow" else freq[sel[-1] + 1:]))
+                    require(abs(F(got) - (F(base) + cut)) <= Fraction((n + 4) * 2.0 ** -52 * mass), nm, f"{got} want {float(F(base) + cut)} (cut-off weight {mass})")
                 else:
                     require(F(got) == F(base) + cut, nm, f"{got} want {float(F(base) + cut)}")
-            if not (math.isnan(u0) or math.isnan(o0)):
+            if not (math.isnan(u0) or math.isnan(o0)) and not case.get("mixed_magnitude"):
                 a = F(r.total) + F(r.underflow) + F(r.overflow)
                 b = F(h.total) + F(u0) + F(o0)
                 require(a == b, "not_conserved", f"{float(a)} vs {float(b)}")
@@ -178,9 +182,15 @@ def check_1d(case, ctx: Ctx):
         require(math.isnan(float(r.underflow)) and math.isnan(float(r.overflow)), "noncontiguous_missed_not_unknown", f"{r.underflow},{r.overflow}")
         ctx.nt(len(want_f) >= 2)
     unchanged()
-    # the result is independent storage
-    if np.asarray(r.frequencies).size:
-        require(not np.shares_memory(np.asarray(r.frequencies), np.asarray(h.frequencies)) or True, "shares", "")
+    # the result is independent storage: working on it in place never reaches the source
+    if np.asarray(r.frequencies).size and not r.is_adaptive():
+        mid_ = float((np.asarray(r.bins)[0][0] + np.asarray(r.bins)[0][1]) / 2)
+        ctx.maybe(r.fill, mid_)
+        ctx.maybe(r.fill_n, np.array([mid_, mid_]))
+        def scale_(rr=r):
+            rr *= 2
+        ctx.maybe(scale_)
+        require(snap_equal(before, snapshot(h)), "source_modified_through_selection", lambda: snap_diff(before, snapshot(h)))
 
 
 def slice_parts(n):
@@ -196,7 +206,20 @@ def slice_parts(n):
 def cases_1d(draw, tier="quick"):
     spec = draw(hgen.hist_spec(dims=(1,), dtypes=["int32", "int64", "float32", "float64"], max_bins=10, nan_missed=True, allow_zero=draw(st.booleans())))
     n = len(spec["axes"][0]["pairs"])
+    mixed = False
+    if spec["dtype"] == "float64" and draw(st.integers(0, 3)) == 0:
+        # contents of very different magnitude (a heavy bin left of light ones)
+        spec["freq"] = [draw(st.sampled_from([1e16, 1e8, 1.0, 3.0, 1e-9, 0.5])) for _ in range(n)]
+        spec["err2"] = None
+        spec["missed"] = [draw(st.sampled_from([0.0, 2.0, 1e-9])), draw(st.sampled_from([0.0, 1.0, 1e-9])), 0.0]
+        spec["keep_missed"] = True
+        mixed = True
     kind = draw(st.sampled_from(["int", "slice", "slice", "slice", "mask", "mask_list", "array", "list"]))
+    if mixed and n >= 2 and draw(st.booleans()):
+        # the heavy bin first, the slice cuts light bins off on the right
+        spec["freq"][0] = draw(st.sampled_from([1e16, 1e8]))
+        k_ = draw(st.integers(1, n - 1))
+        return {"spec": spec, "index": ["slice", draw(st.sampled_from([None, 0])), k_, None], "select": draw(st.booleans()), "touch": draw(st.booleans()), "mixed_magnitude": True}
     if kind == "int":
         ix = ["int", draw(st.integers(-n - 2, n + 1))]
     elif kind == "slice":
@@ -211,7 +234,7 @@ def cases_1d(draw, tier="quick"):
         elif draw(st.integers(0, 4)) == 0:
             vals = sorted(v - n for v in vals)  # negative spellings, still increasing
         ix = [kind, vals]
-    return {"spec": spec, "index": ix, "select": draw(st.booleans()) and kind in ("int", "slice"), "touch": draw(st.booleans())}
+    return {"spec": spec, "index": ix, "select": draw(st.booleans()) and kind in ("int", "slice"), "touch": draw(st.booleans()), "mixed_magnitude": mixed}
 
 
 # ---------------------------------------------------------------------------------
